@@ -265,6 +265,10 @@ class HTMLUnicodeInputStream(object):
         elif not data:
             # We have no more data, bye-bye stream
             return False
+        elif len(data) == 1 and (ord(data) == 0x0D or 0xD800 <= ord(data) <= 0xDBFF):
+            # A lone CR or lead surrogate can only be dealt with once we
+            # know what follows it, so read on (we get nothing at EOF)
+            data += self.dataStream.read(chunkSize)
 
         if len(data) > 1:
             lastv = ord(data[-1])
